@@ -420,6 +420,8 @@ def badlen_case(k):
             pr.append(('history', f'{el} d[{v}] at stack {s_}: output {ev.res.output()!r} after the faulting declaration'))
         if pr and bad is None:
             bad = (pr, ev)
+    if k < 2:
+        res['sample'] = dict(common.sample_of(p, [str(v)], ev, 900), job=f'bad-length matrix: {el} d[{n}] {where}, word size {W}, 14 stack sizes')
     res['key'] = digest('badlen', el, str(n), W, where)
     res['nontrivial'] = runs > 0
     res['counters']['sizes_run'] = runs
@@ -473,6 +475,9 @@ def huge_case(k):
             viol = ('history', f'{copies} x {el}[{n}] literal on a 16-bit machine with a 16000-word stack: expected a compile-time '
                                f'rejection or stack_overflow, got {r.outcome}/{r.error_kind} [{hist_text(r.history, 120)}]')
     res['nontrivial'] = True
+    if k == 3:
+        res['sample'] = {'job': f'{copies} x {el}[{n}] stack literal(s) at 16 bits', 'source': src[:300] + ' ...',
+                         'result': dict(res['outcomes'])}
     res['digest'] = digest(res['key'], viol)
     if viol:
         res['violations'].append({'cls': viol[0], 'detail': viol[1], 'fingerprint': None,
